@@ -78,7 +78,8 @@ impl Property for C17 {
         let Some(tc) = load_wellformed(&mut out, "c17", &text, &built.sigs) else {
             return out;
         };
-        let opts = RunOpts { max_next: 300, seed: Some(seed), ..Default::default() };
+        // one call more than the reference's row cap, so that a program of exactly 300 rows is seen to end
+        let opts = RunOpts { max_next: 301, seed: Some(seed), ..Default::default() };
         let real = run_real(&tc, &built.sigs, &spec, &opts);
         if real.new_runs != 1 {
             out.fail("c17:generators", format!("one run created {} generators", real.new_runs));
